@@ -95,9 +95,18 @@ func (s *vApplyStore) Patch(_ context.Context, obj client.Object, patch client.P
 	return nil
 }
 
-func (s *vApplyStore) Create(context.Context, client.Object, ...client.CreateOption) error { s.others++; return nil }
-func (s *vApplyStore) Update(context.Context, client.Object, ...client.UpdateOption) error { s.others++; return nil }
-func (s *vApplyStore) Delete(context.Context, client.Object, ...client.DeleteOption) error { s.others++; return nil }
+func (s *vApplyStore) Create(context.Context, client.Object, ...client.CreateOption) error {
+	s.others++
+	return nil
+}
+func (s *vApplyStore) Update(context.Context, client.Object, ...client.UpdateOption) error {
+	s.others++
+	return nil
+}
+func (s *vApplyStore) Delete(context.Context, client.Object, ...client.DeleteOption) error {
+	s.others++
+	return nil
+}
 func (s *vApplyStore) DeleteAllOf(context.Context, client.Object, ...client.DeleteAllOfOption) error {
 	panic("not used")
 }
